@@ -251,6 +251,29 @@ def constructed(rng):
                 k = rng.randrange(4)
                 lit = (body + "5", "-" + body + "12", "0." + body + "7", body + body[::-1] + "1")[k]
                 out.append("%s %s" % (rng.choice(OPS), E.hexs(lit)))
+    # whole 8-byte blocks (and 7 / 9 / 16 bytes) of one non-digit byte, or of bytes that share the low nibble of a digit
+    # ('0' = 0x30: space, NUL, '@', 'P', 'p', ...; '9' = 0x39: ')', 'I', 'y', ...), in front of / inside / after the digits
+    # and after the point: a chunk test that masks the high nibble away accepts them
+    for ch in [chr(b) for b in range(0x00, 0x80) if not (0x30 <= b <= 0x39)] + ["\u00a0", "\u0660", "\u00b0"]:
+        for n in (8, 8, 7, 9, 16):
+            blk = ch * n
+            k = rng.randrange(6)
+            lit = (blk + "12", "0." + blk + "5", "1" + blk, blk, "-" + blk + "7", "12345678" + blk + "12345678")[k]
+            out.append("%s %s" % (rng.choice(OPS), E.hexs(lit)))
+    for _ in range(300):
+        nib = rng.choice("0123456789")
+        blk = "".join(chr((rng.choice((0x0, 0x1, 0x2, 0x4, 0x5, 0x6, 0x7)) << 4) | (ord(nib) & 0xF)) for _ in range(8))
+        k = rng.randrange(5)
+        lit = (blk + "12", "0." + blk + "5", "7" + blk, "0 0 0 0 7", "12345678" + blk)[k]
+        out.append("%s %s" % (rng.choice(OPS), E.hexs(lit)))
+    # exponents that wrap a 32- or 64-bit accumulator back into the valid range: k * 2^w + small
+    for w in (32, 63, 64, 128):
+        for k in (1, 2, 10, 1 << 20):
+            for small in (-40, -19, -18, -1, 0, 1, 2, 17, 18, 19, 38, 40):
+                e = k * (1 << w) + small
+                for lead in ("1", "25", "0.5", "123.456", "0"):
+                    sg = rng.choice(("", "-", "+"))
+                    out.append("parse %s" % E.hexs("%se%s%d" % (lead, sg, e)))
     # lengths around chunk boundaries, pure digits and fraction-only
     for n in list(range(0, 12)) + [15, 16, 17, 23, 24, 25, 31, 32, 33, 38, 39, 40, 41, 47, 48, 80]:
         ds = digits(rng, n, True)
